@@ -183,7 +183,15 @@ class HttpSource(Source[Union[str,Iterable[str]]]):
         if encoding == 'deflate':
             decomp = zlib.decompressobj(-zlib.MAX_WBITS).decompress
         elif encoding == "gzip":
-            decomp = zlib.decompressobj(16+zlib.MAX_WBITS).decompress
+            #a gzip stream may hold several members (RFC 1952): when one ends the rest goes to a new decompressor
+            state = [zlib.decompressobj(16+zlib.MAX_WBITS)]
+            def decomp(x):
+                out = state[0].decompress(x)
+                while state[0].eof and state[0].unused_data:
+                    x,state[0] = state[0].unused_data, zlib.decompressobj(16+zlib.MAX_WBITS)
+                    out += state[0].decompress(x)
+                if state[0].eof: state[0] = zlib.decompressobj(16+zlib.MAX_WBITS)
+                return out
         else:
             decomp = lambda x: x
 
